@@ -24,8 +24,11 @@ def annotate_half(R, func, loop, axis, other_loops):
     p_ctx, p_map = func.params[0], func.params[1]
     slot = f'{axis} labels'
     c = chain(loop.iter)
+    reordered = (isinstance(loop.iter, ast.Call) and isinstance(loop.iter.func, ast.Name) and loop.iter.func.id in ('sorted', 'reversed', 'set', 'frozenset')
+                 and loop.iter.args and chain(loop.iter.args[0]) == [p_ctx, axis])
     R.check(c == [p_ctx, axis], 'LABELLING', func, loop, f'{slot}: loop over context.{axis} in context order',
-            f'for x in {p_ctx}.{axis}', src(loop.iter))
+            f'for x in {p_ctx}.{axis}', src(loop.iter), strict=True if reordered else None,
+            extra={'consequence': 'labels are appended in loop order: the label tuples are no longer in context order'} if reordered else None)
     if not isinstance(loop.target, ast.Name):
         raise Unrecognised('loop target', func=func, node=loop)
     x = loop.target.id
